@@ -37,6 +37,8 @@ func TList(e Ty) Ty { return Ty{K: "list", Elem: &e} }
 var ParamPool = []Field{
 	{"a", TInt}, {"b", TInt}, {"n", TInt}, {"f", TFloat}, {"s", TStr}, {"t", TStr}, {"c", TBool},
 	{"l", TList(TInt)}, {"ls", TList(TStr)}, {"m", TMapAS}, {"lm", TList(TMapAS)}, {"e", TList(TInt)}, // e may be empty
+	// names a renderer might use for its own book-keeping of the loops over $i, $item, $k: they are ordinary names
+	{"i__index", TInt}, {"item__lastIndex", TInt}, {"k__index", TStr}, {"j__index", TInt},
 }
 
 func poolTy(name string) Ty {
